@@ -7,7 +7,8 @@ RULE = ("requests: every implemented target type of StandardUniform (bool, 8..12
         "acceptance interval and rejected words); Alnum on all 64 six-bit indices exhaustively; extra (implementation only): exact preimage interval search for boundary "
         "scalar values of char, preimage counts over complete small word grids for the NonZero / 128-bit types, and Alnum run on ALL 2^32 first words (x 2 second words): "
         "equal counts for the 62 characters decided by the first word, undecided first words leave the decision to the next word; builds: debug and release (char uses from_u32_unchecked in release). "
-        "non-trivial = at least one word scripted; distinct = distinct request line")
+        "non-trivial = at least one word scripted; distinct = distinct request line"
+        " Since round 10 (extra): Random::next::<T>() ops of both word widths inside ChaCha histories, judged by the keystream attribution (consecutive samples must each be fresh keystream).")
 ASSUMPTIONS = ["64-bit target"]
 
 
